@@ -32,6 +32,7 @@ pub fn usk_op_name(op: &UskOp) -> &'static str {
         UskOp::FlipBit { .. } => "bit-flip",
         UskOp::Truncate { .. } => "truncate",
         UskOp::ShiftNameBorder { .. } => "shift-name-secret-border",
+        UskOp::SplitChain { .. } => "split-chain",
     }
 }
 
@@ -317,6 +318,15 @@ pub fn apply_usk_op(w: &mut World, user: usize, bytes: &[u8], op: &UskOp) -> Opt
                 return None;
             }
             return Some(bytes[..*len].to_vec());
+        }
+        UskOp::SplitChain { i, k } => {
+            let (n, s) = p.rights.get(*i)?.clone();
+            if s.len() < 2 {
+                return None;
+            }
+            let k = 1 + *k % (s.len() - 1);
+            p.rights[*i] = (n.clone(), s[..k].to_vec());
+            p.rights.insert(*i + 1, (n, s[k..].to_vec()));
         }
         UskOp::ShiftNameBorder { i, k } => {
             // Move the first k bytes of the MACed part of the first secret into the right's name
